@@ -3,7 +3,11 @@
 package internal
 
 import (
+	"bytes"
 	"context"
+	"encoding/json"
+	"strconv"
+	"strings"
 )
 
 type contextKey string
@@ -25,4 +29,76 @@ func IsSigned(ctx context.Context) bool {
 // SignedContext returns a new context with the signed flag set.
 func SignedContext(ctx context.Context) context.Context {
 	return context.WithValue(ctx, KeySigned, true)
+}
+
+// NullArrayElement scans JSON data and reports the path of the first array
+// that contains a null element, if any. GOBL documents never use null as an
+// array element, and the structures they unmarshal into are lists of pointers
+// whose entries are expected to be present.
+func NullArrayElement(data []byte) (string, bool) {
+	dec := json.NewDecoder(bytes.NewReader(data))
+	type frame struct {
+		array bool
+		key   string
+		index int
+		isKey bool // next token of an object is a key
+	}
+	var stack []*frame
+	path := func() string {
+		var sb strings.Builder
+		for _, f := range stack {
+			if f.array {
+				sb.WriteString("[" + strconv.Itoa(f.index) + "]")
+			} else {
+				sb.WriteString("." + f.key)
+			}
+		}
+		return sb.String()
+	}
+	for {
+		tok, err := dec.Token()
+		if err != nil {
+			return "", false // syntax problems are reported by the real unmarshal
+		}
+		top := (*frame)(nil)
+		if len(stack) > 0 {
+			top = stack[len(stack)-1]
+		}
+		if top != nil && !top.array && top.isKey {
+			if k, ok := tok.(string); ok {
+				top.key = k
+				top.isKey = false
+				continue
+			}
+		}
+		switch t := tok.(type) {
+		case json.Delim:
+			switch t {
+			case '{':
+				stack = append(stack, &frame{isKey: true})
+				continue
+			case '[':
+				stack = append(stack, &frame{array: true})
+				continue
+			default: // closing
+				stack = stack[:len(stack)-1]
+				if len(stack) == 0 {
+					return "", false
+				}
+				top = stack[len(stack)-1]
+			}
+		case nil:
+			if top != nil && top.array {
+				return path(), true
+			}
+		}
+		if top == nil {
+			return "", false
+		}
+		if top.array {
+			top.index++
+		} else {
+			top.isKey = true
+		}
+	}
 }
